@@ -87,6 +87,91 @@ def run_reuse(case):
             "labels": ["loss-added-between-reads"] if added_loss else []}
 
 
+# ---------------------------------------------------------------- many photons, two modes
+@st.composite
+def two_mode_case(draw, big=False):
+    ops = []
+    for _ in range(draw(st.integers(1, 3))):
+        ops.append(["bs", 0, 1, draw(st.floats(0.05, 0.95)), draw(gen.conv), 0])
+        ops.append(["ps", draw(st.integers(0, 1)), draw(gen.phase), 0])
+    top = 26 if big else 24
+    n0 = draw(st.integers(0, top))
+    n1 = draw(st.integers(0, top - n0))
+    return {"prog": {"n": 2, "ops": ops}, "input": [n0, n1]}
+
+
+def exact_two_mode(U, n0, n1):
+    """Exact output probabilities of |n0, n1> through a 2x2 unitary: expansion of
+    (U00 x + U10 y)^n0 (U01 x + U11 y)^n1 with exact rational arithmetic on the float entries."""
+    from fractions import Fraction
+    import math
+
+    def cf(z):
+        return (Fraction(float(z.real)), Fraction(float(z.imag)))
+
+    def mul(a, b):
+        return (a[0] * b[0] - a[1] * b[1], a[0] * b[1] + a[1] * b[0])
+
+    def poly_pow(a, b, n):
+        # coefficients c[j] of x^j y^(n-j) in (a x + b y)^n
+        out = []
+        pa = [(Fraction(1), Fraction(0))]
+        for _ in range(n):
+            pa.append(mul(pa[-1], a))
+        pb = [(Fraction(1), Fraction(0))]
+        for _ in range(n):
+            pb.append(mul(pb[-1], b))
+        for j in range(n + 1):
+            t = mul(pa[j], pb[n - j])
+            cmb = math.comb(n, j)
+            out.append((t[0] * cmb, t[1] * cmb))
+        return out
+    A = poly_pow(cf(U[0, 0]), cf(U[1, 0]), n0)
+    B = poly_pow(cf(U[0, 1]), cf(U[1, 1]), n1)
+    n = n0 + n1
+    probs = {}
+    for k in range(n + 1):
+        re, im = Fraction(0), Fraction(0)
+        for j in range(max(0, k - n1), min(n0, k) + 1):
+            t = mul(A[j], B[k - j])
+            re += t[0]
+            im += t[1]
+        norm = Fraction(math.factorial(k) * math.factorial(n - k), math.factorial(n0) * math.factorial(n1))
+        probs[(k, n - k)] = float((re * re + im * im) * norm)
+    return probs
+
+
+def run_two_mode(case):
+    import lightworks as lw
+    from lightworks import emulator
+    c = call("build", build_real, case["prog"])
+    n0, n1 = case["input"]
+    n = n0 + n1
+    ref = exact_two_mode(c.U, n0, n1)
+    backends = ["slos"] + (["permanent"] if n <= 14 else [])
+    for backend in backends:
+        d = call(f"probability_distribution[{backend}]",
+                 lambda b=backend: emulator.Sampler(c, lw.State([n0, n1]), backend=b).probability_distribution)
+        tol = (n + 1) * 1e-9 + 1e-9 + 1e-10 * n
+        tot = 0.0
+        for s_, p in d.items():
+            k = tuple(s_)
+            tot += p
+            if sum(k) != n:
+                raise Violation(f"{backend}: lossless circuit, {n} photons in, pattern {k} out", key="photon-number")
+            if not abs(p - ref.get(k, 0.0)) <= tol:
+                raise Violation(f"{backend}: P{k} = {p:.10g} for input |{n0},{n1}>, exact {ref.get(k, 0.0):.10g}",
+                                key="probability-mismatch")
+        if not abs(tot - 1) <= tol:
+            raise Violation(f"{backend}: distribution for |{n0},{n1}> sums to {tot:.10g}", key="not-normalised")
+    labels = []
+    if n >= 21:
+        labels.append("photons>=21")
+    if math.factorial(n0) * math.factorial(n1) >= 2 ** 63:
+        labels.append("factorial-product>=2^63")
+    return {"nontrivial": n >= 8, "labels": labels}
+
+
 def reference(c, vin):
     from lightworks.sdk.utils import add_heralds_to_state  # only for nothing; not used
     U = c.U_full
@@ -207,5 +292,6 @@ def subs(tier):
         Sub("sampler-distribution", run_dist, strategy=dist_case(big=not q), examples=70 if q else 600),
         Sub("bunched", run_dist, strategy=bunched_case(big=not q), examples=40 if q else 1500),
         Sub("edit-between-reads", run_reuse, strategy=reuse_case(), examples=50 if q else 600),
+        Sub("many-photons-two-modes", run_two_mode, strategy=two_mode_case(big=not q), examples=25 if q else 400),
         Sub("backend-direct", run_backend_direct, strategy=dist_case(big=False), examples=30 if q else 400),
     ]
